@@ -929,6 +929,9 @@ pub fn run_one(ctx: &Ctx, wd: &WorkerDir, seed: u64, run: u64) -> RunResult {
     let decls = text.matches("packet ").count() + text.matches("struct ").count() + text.matches("enum ").count();
     st.nontrivial = decls >= 2 && p != Perturb::canonical() && !st.fired.is_empty();
     let plan_digest = stable_hash(&(run, format!("{:?}", job), format!("{:?}", p)));
-    let obs_digest = stable_hash(&(violation.as_ref().map(|v| (v.invariant, v.detail.clone())), format!("{:?}", st.fired), st.open_order_hash, st.ref_status));
+    // (the number of short/interrupted writes is not part of the observation: a panicking pdlc prints
+    // its OS thread id, whose digit count varies, so the amount written to stderr is not reproducible)
+    let hard: Vec<(&String, &u64)> = st.fired.iter().filter(|(k, _)| matches!(k.as_str(), "rd_hard" | "wr_hard" | "wr_crash")).collect();
+    let obs_digest = stable_hash(&(violation.as_ref().map(|v| (v.invariant, v.detail.clone())), format!("{:?}", hard), st.open_order_hash, st.ref_status));
     RunResult { job, perturb: p, violation, stats: st, plan_digest, obs_digest }
 }
